@@ -351,7 +351,7 @@ def impl_number(v):
 
 # ------------------------------------------------------------------------------------------------ positions
 
-def positions(rng, T, val, single, star=False):
+def positions(rng, T, val, single, star=False, dot=False):
     """(expression, expected value) pairs: the text T (value val, a non-negative integer) in every position a name may occur in."""
     P = T if single else '(%s)' % T
     # `T * 2` with a bound name that continues T with `*` reads that longer name (longest match): parenthesise T there
@@ -374,7 +374,9 @@ def positions(rng, T, val, single, star=False):
         ('[function() 1, %s][2]' % T, val), ('[function(q) q, %s][2]' % T, val), ('if (function() true)() then %s else 0' % T, val),
         ('[{k: 1}, %s][2]' % T, val), ('{f: function() 5, r: f() + %s}.r' % P, 5 + val), ('[[1][item = 1], %s][2]' % T, val),
     ]
-    if single:
+    if single and not dot:
+        # (not when a bound name contains the symbol `.`: behind T the two dots of `T..T` may continue a longer bound name - with `c.` and `c` bound,
+        # `c..c` is the member c of `c.`, by the longest-match rule itself; a false alarm of the thorough tier in the last hours, corrected here)
         # the name as an interval endpoint and as the operand of a unary comparison, inside a scope pushed by a binder while the name is bound in an
         # ENCLOSING context (these positions resolve through Scope::search_deep; seeded change C10_g: only the context on top was consulted)
         out += [('for i in [1] return %s in [%s..%s]' % (T, T, T), [True]), ('some i in [1] satisfies %s in [%s..%s]' % (T, T, T), True),
@@ -594,7 +596,8 @@ def run(ctx):
     pos_cases = []
     for c, ev, single in good_texts:
         star = any(rust_trim(q) == '*' for parts in c['scope'] for q in parts)
-        for e, want in positions(rng, c['text'], ev, single, star):
+        dot = any(rust_trim(q) == '.' for parts in c['scope'] for q in parts)
+        for e, want in positions(rng, c['text'], ev, single, star, dot):
             pos_cases.append({'bind': c['bind'], 'e': e, 'want': want, 'what': 'position', 'bound': c['scope']})
     for e, want, what in binder_cases(rng):
         pos_cases.append({'bind': [], 'e': e, 'want': want, 'what': what, 'bound': []})
@@ -625,6 +628,16 @@ def run(ctx):
                         ('if (every %s in [1,2] satisfies %s > 0) then %s else 0' % (t, t, t), outer_v),
                         ('[%s, sum(for %s in [1,2] return %s), %s]' % (t, t, t, t), [outer_v, 3, outer_v])):
             pos_cases.append({'bind': ab, 'e': e, 'want': want, 'what': 'operator-joined iteration variable, the same text behind the binder', 'bound': [['a'], ['b']]})
+    # names that differ only in the case of their letters are different names, each with its own value - in the scope, in a context literal, as formal
+    # parameters and as iteration variables (seeded change C10_j: the ordering of names, which keys the map of a context, ignored case)
+    for lo, up in ((['rate'], ['Rate']), (['net', 'income'], ['Net', 'income']), (['\u017c\u00f3\u0142w'], ['\u017b\u00f3\u0142w']), (['a', '-', 'b'], ['A', '-', 'b'])):
+        tl, tu = name_new(lo), name_new(up)
+        both = [[lo, 2], [up, 10], [['zz'], 1]]
+        for e, want in ((tu, 10), (tl, 2), ('%s * 10 + %s' % (tu, tl), 102), ('(%s) - (%s)' % (tu, tl), 8), ('[%s, %s]' % (tl, tu), [2, 10]), ('if %s > %s then zz else 0' % (tu, tl), 1)):
+            pos_cases.append({'bind': both, 'e': e, 'want': want, 'what': 'names differing only in letter case', 'bound': [lo, up, ['zz']]})
+        pos_cases.append({'bind': [[['zz'], 1]], 'e': '{%s: 7, %s: 8, r: %s * 10 + %s}.r' % (tu, tl, tu, tl), 'want': 78, 'what': 'context entries differing only in letter case', 'bound': [['zz']]})
+        pos_cases.append({'bind': [[['zz'], 1]], 'e': '(function(%s, %s) %s * 10 + %s)(4, 3)' % (tu, tl, tu, tl), 'want': 43, 'what': 'formal parameters differing only in letter case', 'bound': [['zz']]})
+        pos_cases.append({'bind': [[['zz'], 1]], 'e': 'for %s in [4], %s in [3] return %s * 10 + %s' % (tu, tl, tu, tl), 'want': [43], 'what': 'iteration variables differing only in letter case', 'bound': [['zz']]})
     # the keyword `in` as the first part of an iteration variable: no variable name before it, the text is an ordinary name (fixed 83bd59b: was a panic)
     for text in ('for in+x in [1] return 1', 'some in-x in [1] satisfies true', 'every in.a in [1] satisfies true'):
         pos_cases.append({'bind': [[['zz'], 1]], 'e': text, 'want': 'parse', 'what': 'in as first part', 'bound': [['zz']]})
